@@ -355,6 +355,11 @@ def evaluate(mod, cases):
             # problem of the machinery, not evidence about the property
             raise InfraError(f"{mod.PROP}: an anchored module/function could not be imported by the harness: {clean(c)!r}"[:600])
         ops = mod.ops(c)
+        if len(ia) == 1 and len(ops) > 1 and isinstance(ia[0], str) and (
+            ia[0].startswith("Error:") or ia[0] in ("IndexError", "ValueError", "RuntimeError", "NotImplementedError", "TypeError", "KeyError")
+        ):
+            # the implementation raised before any of the observations could be made: every one of them is that error
+            ia = ia * len(ops)
         if len(ia) != len(ops):
             raise InfraError(f"{mod.PROP}: impl gave {len(ia)} answers for {len(ops)} ops: {c}")
         per.append((c, ia, len(all_ops), len(ops)))
